@@ -46,7 +46,10 @@ std::unique_ptr<NifFile> build(const std::string& ver, int kind) {
 		uint32_t id = hdr.AddBlock(std::move(fx));
 		shape->ShaderPropertyRef()->index = id;
 	}
-	else if (kind == 3) {
+	else if (kind == 3 || kind == 4) {
+		// kind 4: the texturing property is the shape's only property (no material, no shader)
+		if (kind == 4)
+			nif->DeleteShader(shape);
 		auto src = std::make_unique<NiSourceTexture>();
 		uint32_t sid = hdr.AddBlock(std::move(src));
 		auto tp = std::make_unique<NiTexturingProperty>();
@@ -94,7 +97,7 @@ World& world(const std::string& ver, bool terrain, int kind) {
 
 void setPath(World& w, int kind, int slot, const std::string& p) {
 	NiHeader& hdr = w.nif->GetHeader();
-	if (kind == 3) {
+	if (kind >= 3) {
 		auto tp = w.nif->GetTexturingProperty(w.shape);
 		auto src = hdr.GetBlock(tp->baseTex.sourceRef);
 		src->fileName.get() = p;
@@ -104,7 +107,7 @@ void setPath(World& w, int kind, int slot, const std::string& p) {
 	w.nif->SetTextureSlot(w.shape, s, static_cast<uint32_t>(slot));
 }
 std::string getPath(World& w, int kind, int slot) {
-	if (kind == 3) {
+	if (kind >= 3) {
 		// the shape also has a shader texture set, which GetTextureSlot prefers: read the source texture block itself
 		auto tp = w.nif->GetTexturingProperty(w.shape);
 		auto src = tp ? w.nif->GetHeader().GetBlock(tp->baseTex.sourceRef) : nullptr;
@@ -154,7 +157,7 @@ std::string load(const Args& a) {
 	if (shapes.empty())
 		return "no-shape";
 	std::string out;
-	if (kind == 3) {
+	if (kind >= 3) {
 		auto tp = re.GetTexturingProperty(shapes[0]);
 		auto src = tp ? re.GetHeader().GetBlock(tp->baseTex.sourceRef) : nullptr;
 		if (!src)
